@@ -20,6 +20,10 @@ CVS_FILES = {"robsd": ["cvs-src-up.log", "cvs-src-ci.log", "cvs-xenocara-up.log"
 REL_FILES = ["bsd", "bsd.rd", "bsd.mp", "base75.tgz", "comp75.tgz", "CHANGELOG", "src.diff.1", "INSTALL.amd64", "SHA256"]
 
 
+# the Lean model's line handling is quadratic in the line length: a bounded number of long-line logs per run
+LONG_BUDGET = [60]
+
+
 def gen_log(rng, regress=False):
     k = rng.random()
     if regress:
@@ -27,7 +31,8 @@ def gen_log(rng, regress=False):
         return c13.gen_log(rng)
     if k < 0.08:
         return b""
-    if k < 0.11:
+    if k < 0.11 and LONG_BUDGET[0] > 0:
+        LONG_BUDGET[0] -= 1
         # long lines (link commands, one huge trace line): the last ten lines are tens of KiB, or a single line is
         lines = [b"x" * rng.choice([10, 300]) + b" head %d" % i for i in range(rng.randint(0, 15))]
         if rng.random() < 0.5:
